@@ -123,9 +123,9 @@ fn session(ops: &[Value], dialect: Dialect, extra_texts: &[String], rng: &mut Rn
                     let ok = l.import_ignored_lints(j).is_ok();
                     out.push(json!({"ev": "IgnoredRoundTrip", "ok": ok}));
                 }
-                "lint" => {
+                "lint" | "lint_md" => {
                     let text = match &op["text"] { Value::String(s) => s.clone(), v => text_of(v) };
-                    let lang = if op["lang"] == "md" { Language::Markdown } else { Language::Plain };
+                    let lang = if op["lang"] == "md" || op["op"] == "lint_md" { Language::Markdown } else { Language::Plain };
                     out.push(lint_event(&mut l, &text, lang));
                     // apply every suggestion of the first few lints through the API; JSON round trips
                     let lints = l.lint(text.clone(), lang);
